@@ -461,8 +461,12 @@ class Interface:
         min_pilot_signals = network.min_pilot_signals
         allowable_rates = network.allowable_rates
         is_continuous = network.is_continuous
+        constraint_matrix = network.constraint_matrix
+        if constraint_matrix is None:
+            # A network without constraints is described by a 0 x N matrix.
+            constraint_matrix = np.zeros((0, len(station_ids)))
         return InfrastructureInfo(
-            network.constraint_matrix,
+            constraint_matrix,
             network.magnitudes,
             network._phase_angles,
             network._voltages,
